@@ -305,6 +305,44 @@ func (c *c16) DumpCase(seed uint64, idx int) []Case {
 				ex.Projects = append(ex.Projects, pick())
 			}
 		}
+		// Two scenarios drawn from a stream of their own (the main stream, and with it every other
+		// case, stays as it is):
+		r2 := newRng(splitmix(seed^0x5ca1ab1e, uint64(idx)))
+		switch {
+		case r2.chance(60):
+			// one document with CR or CRLF line ends and Descriptions, handed to several callers as
+			// one shared buffer
+			cfg := randomCfg(r2)
+			cfg.LineBreak = []string{"\r\n", "\r"}[r2.n(2)]
+			cfg.Tags += 2
+			d := generateDoc(r2, cfg)
+			single, _, _ := cutProject(d, r2, "/sim/proj/api", 3)
+			cs.Project = single
+			ex.Projects = nil
+			for i := 1; i < n && i < 6; i++ {
+				ex.Projects = append(ex.Projects, single)
+			}
+		case r2.chance(60):
+			// a valid document and its twin with edge-value rules (same type names), several of each
+			cfg := randomCfg(r2)
+			cfg.Types += 3
+			st := *r2
+			d := generateDoc(r2, cfg)
+			cfg.RuleFuzz = true
+			r3 := st
+			d2 := generateDoc(&r3, cfg)
+			good, _, _ := cutProject(d, r2, "/sim/proj/api", 3)
+			bad, _, _ := cutProject(d2, r2, "/sim/proj/bad", 3)
+			cs.Project = good
+			ex.Projects = nil
+			for i := 1; i < n && i < 8; i++ {
+				if i%2 == 1 {
+					ex.Projects = append(ex.Projects, bad)
+				} else {
+					ex.Projects = append(ex.Projects, good)
+				}
+			}
+		}
 		if r.chance(300) {
 			cs.Opts.Entry = "path"
 		}
